@@ -16,6 +16,7 @@
 // daemon-liveness / witness oracle and token exclusivity over the global
 // order of socket events.  DESIGN.md section 6 (C18, C19).
 #include <errno.h>
+#include <fcntl.h>
 #include <signal.h>
 #include <sys/socket.h>
 #include <sys/un.h>
@@ -111,6 +112,7 @@ struct Client {
   sim::Task* task = nullptr;
   bool done = false;
   bool token = false;
+  uint64_t last_rx_seq = 0;  // seq at which the last frame was received
 };
 
 struct Universe {
@@ -139,9 +141,12 @@ struct Universe {
   // C19 token bookkeeping over the global order of events at the daemon's socket boundary
   std::map<int, int> fd_conn;                 // daemon side fd -> connection id
   int next_conn = 0;
-  struct Conn { bool holds = false; bool asked = false; bool closed = false; bool is_adv = false; int client = -1; std::string rx, tx; };
+  struct Conn { bool asked = false; bool closed = false; bool rx_broken = false; std::string rx, tx; };
   std::vector<Conn> conns;
 
+  std::vector<int> holders;                   // connections currently holding the token (global event order)
+  std::vector<std::pair<uint64_t, double>> flushes;  // (seq, capture clock) of channel flush notifications
+  int adversaries_done = 0, adversaries = 0;
   Universe(RunCtx& c, const Plan& p, Sched& s, simk::Kernel& kk) : ctx(c), plan(p), sched(s), k(kk) {}
   uint64_t next_seq() { return ++seq; }
 };
@@ -425,6 +430,8 @@ static void check_interval(Universe& u, Client& c, size_t ivx) {
         uint64_t ms = u.hand[(size_t)m].seq;
         bool excused = false;
         for (auto& ia : iv.inattentive) if (ms > ia.first && ms < ia.second) excused = true;
+        // a channel flush notification discards every client's queue by design: frames captured shortly before it may be lost
+        for (auto& fl : u.flushes) if (ms < fl.first && u.hand[(size_t)m].ts > fl.second - 2.0) excused = true;
         if (!excused) { ctx.fail("oracle:gap", "client %d kept reading but never received frame #%d (received #%d next, previous #%d)", c.idx, u.hand[(size_t)m].idx, hf.idx, prev_idx < 0 ? -1 : u.hand[(size_t)prev_idx].idx); return; }
         ctx.count("frames_lost_by_stalled_client");
       }
@@ -496,6 +503,7 @@ struct ClientRunner {
         auto it = u.hand_by_ts.find(ts_key(rv.ts));
         u.ctx.log("client %d: frame #%d lines %d", c.idx, it == u.hand_by_ts.end() ? -1 : u.hand[(size_t)it->second].idx, nl);
         c.iv.back().frames.push_back(rv);
+        c.last_rx_seq = rv.seq;
         c.reads_ok++;
       } else if (r == 0) {
         u.ctx.count("client_read_timeout_or_async");
@@ -534,6 +542,44 @@ struct ClientRunner {
     begin_interval(start, granted);
     u.ctx.count("service_updates");
   }
+  // channel control through the real client API.  While the library waits for the reply it discards sliced data (that
+  // is how proxy-client.c works), so the RPC counts as a moment of inattention of this client.
+  // KNOWN FINDING C18-K1 (known_findings.json): proxy-client.c throws away sliced frames that arrive while it waits for
+  // the reply to a channel request / notification ("XXX FIXME: don't discard messages" in the source), including frames
+  // the daemon had queued before the request.  With knob strict_rpc_gap=0 (generator default) frames captured after the
+  // last frame this client received and before the reply are excused; the finding's own replay sets the knob to 1.
+  uint64_t rpc_begin() {
+    uint64_t a = u.next_seq();
+    if (!u.plan.knob("strict_rpc_gap", 0) && c.last_rx_seq && c.last_rx_seq < a) a = c.last_rx_seq;
+    if (!u.plan.knob("strict_rpc_gap", 0) && !c.last_rx_seq && !c.iv.empty()) a = c.iv.back().begin_done_seq;
+    return a;
+  }
+  void do_token_req(int prio, int subprio, int min_dur, int valid) {
+    if (!c.connected) return;
+    vbi_channel_profile prof; memset(&prof, 0, sizeof prof);
+    prof.is_valid = (uint8_t)(valid != 0); prof.sub_prio = (uint8_t)subprio; prof.allow_suspend = 1;
+    prof.min_duration = min_dur; prof.exp_duration = min_dur * 2;
+    uint64_t a = rpc_begin();
+    u.ctx.log("client %d: channel request prio=%d sub=%d min=%d valid=%d", c.idx, prio, subprio, min_dur, valid);
+    int r = vbi_proxy_client_channel_request(c.vpc, (VBI_CHN_PRIO)prio, &prof);
+    uint64_t b = u.next_seq();
+    if (!c.iv.empty()) { HarnessScope hs; c.iv.back().inattentive.push_back({a, b}); }
+    if (r < 0) { drop("channel request"); return; }
+    u.ctx.log("client %d: channel request -> %d", c.idx, r);
+    u.ctx.count(r > 0 ? "token_granted_at_once" : "token_requests_pending");
+  }
+  void do_notify(int flags) {
+    if (!c.connected) return;
+    uint64_t a = rpc_begin();
+    u.ctx.log("client %d: channel notify flags=%x (has token %d)", c.idx, flags, vbi_proxy_client_has_channel_control(c.vpc));
+    if (flags & VBI_PROXY_CHN_FLUSH) { HarnessScope hs; u.flushes.push_back({a, (double)u.k.epoch_s + (double)u.k.now_ns() / 1e9}); u.ctx.count("fault_channel_flush"); }
+    int r = vbi_proxy_client_channel_notify(c.vpc, (VBI_PROXY_CHN_FLAGS)flags, 0);
+    uint64_t b = u.next_seq();
+    if (flags & VBI_PROXY_CHN_FLUSH) { HarnessScope hs; u.flushes.push_back({b, (double)u.k.epoch_s + (double)u.k.now_ns() / 1e9}); }
+    if (!c.iv.empty()) { HarnessScope hs; c.iv.back().inattentive.push_back({a, b}); }
+    if (r < 0) { drop("channel notify"); return; }
+    u.ctx.count("token_notifies");
+  }
   void do_close() {
     if (!c.vpc) return;
     end_interval();
@@ -552,6 +598,8 @@ struct ClientRunner {
       else if (op.kind == "stall") do_stall(20 + (int)absmod(op.arg(0), 3000));
       else if (op.kind == "update") do_update((int)op.arg(0), (int)absmod(op.arg(1) + 1, 4) - 1, op.arg(2) != 0);
       else if (op.kind == "close") do_close();
+      else if (op.kind == "token") do_token_req(1 + (int)absmod(op.arg(0), 3), (int)absmod(op.arg(1), 0x50), (int)absmod(op.arg(2), 4), (int)op.arg(3, 1));
+      else if (op.kind == "notify") do_notify((int)absmod(op.arg(0), 32));
     }
     if (!u.ctx.failed) do_close();
     c.done = true;
@@ -766,5 +814,308 @@ struct C18 : ProxyWorld {
   bool nontrivial(Universe& u, int frames, int busy) override { (void)u; return frames >= 10 && busy >= 1; }
 };
 ZSIM_REGISTER_WORLD(C18)
+
+// ============================================================== C19 =========
+// Adversary: a task that speaks raw bytes on a simulated socket.  Every message starts from a VALID message of the
+// protocol (built from src/proxy-msg.h) and is then mutated as the plan says.
+struct Adversary {
+  Universe& u;
+  int idx;   // task number in the plan (100 + n)
+  int fd = -1;
+  std::string sock_path;
+  Adversary(Universe& uu, int i) : u(uu), idx(i) {}
+
+  static uint32_t be32(uint32_t v) { return __builtin_bswap32(v); }
+
+  void connect_() {
+    if (fd >= 0) close_();
+    fd = socket(AF_UNIX, SOCK_STREAM, 0);
+    if (fd < 0) return;
+    struct sockaddr_un sa; memset(&sa, 0, sizeof sa); sa.sun_family = AF_UNIX;
+    snprintf(sa.sun_path, sizeof sa.sun_path, "%s", sock_path.c_str());
+    if (connect(fd, (struct sockaddr*)&sa, sizeof sa) != 0) { u.ctx.log("adversary %d: connect failed errno %d", idx, errno); close(fd); fd = -1; return; }
+    fcntl(fd, F_SETFL, O_NONBLOCK);
+    u.ctx.log("adversary %d: connected", idx);
+    u.ctx.count("adv_connects");
+  }
+  void close_() {
+    if (fd < 0) return;
+    close(fd); fd = -1;
+    u.ctx.log("adversary %d: closed", idx);
+  }
+  void drain() {  // read and throw away whatever the daemon sent
+    if (fd < 0) return;
+    char b[4096]; long total = 0;
+    for (int i = 0; i < 64; i++) { ssize_t r = recv(fd, b, sizeof b, 0); if (r <= 0) { if (r == 0) { u.ctx.log("adversary %d: peer closed", idx); close_(); } break; } total += r; }
+    if (total) u.ctx.count("adv_bytes_drained", total);
+  }
+  void send_bytes(const std::string& d) {
+    if (fd < 0) return;
+    size_t off = 0;
+    for (int tries = 0; off < d.size() && tries < 50; ) {
+      ssize_t r = send(fd, d.data() + off, d.size() - off, 0);
+      if (r > 0) { off += (size_t)r; continue; }
+      if (r < 0 && (errno == EAGAIN || errno == EINTR)) { tries++; drain(); if (fd < 0) return; u.sched.sleep_ns(5000000); continue; }
+      u.ctx.log("adversary %d: send failed errno %d", idx, errno); close_(); return;
+    }
+    u.ctx.count("adv_bytes_sent", (int64_t)off);
+  }
+
+  // a valid message of the given kind (network byte order header)
+  std::string build(int kind, const Op& op) {
+    VBIPROXY_MSG m; memset(&m, 0, sizeof m);
+    uint32_t type = 0; size_t body = 0;
+    switch (absmod(kind, 10)) {
+      case 0: {
+        type = MSG_TYPE_CONNECT_REQ; body = sizeof m.body.connect_req;
+        vbi_proxy_msg_fill_magics(&m.body.connect_req.magics);
+        snprintf((char*)m.body.connect_req.client_name, VBIPROXY_CLIENT_NAME_MAX_LENGTH, "adversary%d", idx);
+        m.body.connect_req.pid = 666; m.body.connect_req.client_flags = (uint32_t)absmod(op.arg(5), 4);
+        m.body.connect_req.scanning = op.arg(6) % 3 == 0 ? 625 : (op.arg(6) % 3 == 1 ? 0 : 525);
+        m.body.connect_req.buffer_count = (uint8_t)(1 + absmod(op.arg(7), 8));
+        m.body.connect_req.services = SVC[absmod(op.arg(4), NSVC)]; m.body.connect_req.strict = (int8_t)(absmod(op.arg(8), 4) - 1);
+        break; }
+      case 1: type = MSG_TYPE_SERVICE_REQ; body = sizeof m.body.service_req;
+        m.body.service_req.reset = (uint8_t)(op.arg(5) & 1); m.body.service_req.commit = 1;
+        m.body.service_req.strict = (int8_t)(absmod(op.arg(8), 4) - 1); m.body.service_req.services = SVC[absmod(op.arg(4), NSVC)]; break;
+      case 2: type = MSG_TYPE_CHN_TOKEN_REQ; body = sizeof m.body.chn_token_req;
+        m.body.chn_token_req.chn_prio = (uint32_t)(1 + absmod(op.arg(4), 3));
+        m.body.chn_token_req.chn_profile.is_valid = (uint8_t)(op.arg(5, 1) != 0); m.body.chn_token_req.chn_profile.sub_prio = (uint8_t)absmod(op.arg(6), 0x50);
+        m.body.chn_token_req.chn_profile.min_duration = absmod(op.arg(7), 4); break;
+      case 3: type = MSG_TYPE_CHN_NOTIFY_REQ; body = sizeof m.body.chn_notify_req;
+        m.body.chn_notify_req.notify_flags = (VBI_PROXY_CHN_FLAGS)absmod(op.arg(4), 32); m.body.chn_notify_req.scanning = op.arg(5) & 1 ? 625 : 0; break;
+      case 4: type = MSG_TYPE_CHN_RECLAIM_CNF; body = sizeof m.body.chn_reclaim_cnf; break;
+      case 5: type = MSG_TYPE_CHN_IOCTL_REQ; {
+        uint32_t asz = (uint32_t)absmod(op.arg(4), 64);
+        m.body.chn_ioctl_req.request = (uint32_t)op.arg(5); m.body.chn_ioctl_req.arg_size = asz;
+        body = VBIPROXY_CHN_IOCTL_REQ_SIZE(asz); break; }
+      case 6: type = MSG_TYPE_CLOSE_REQ; body = 0; break;
+      case 7: type = MSG_TYPE_DAEMON_PID_REQ; body = sizeof m.body.daemon_pid_req; vbi_proxy_msg_fill_magics(&m.body.daemon_pid_req.magics); break;
+      case 8: type = MSG_TYPE_CHN_SUSPEND_REQ; body = sizeof m.body.chn_notify_req; break;   // (the daemon checks it against chn_notify_req)
+      default: {  // server-only, reply and unknown types
+        static const uint32_t odd[] = {MSG_TYPE_CONNECT_CNF, MSG_TYPE_SLICED_IND, MSG_TYPE_SERVICE_CNF, MSG_TYPE_CHN_TOKEN_IND, MSG_TYPE_CHN_RECLAIM_REQ,
+                                       MSG_TYPE_DAEMON_PID_CNF, MSG_TYPE_CHN_CHANGE_IND, MSG_TYPE_COUNT, 255, 0x7fffffffu, 0xffffffffu};
+        type = odd[absmod(op.arg(4), 11)]; body = (size_t)absmod(op.arg(5), 200); break; }
+    }
+    size_t len = sizeof(VBIPROXY_MSG_HEADER) + body;
+    m.head.len = be32((uint32_t)len); m.head.type = be32(type);
+    return std::string((const char*)&m, len);
+  }
+
+  void mutate(std::string& d, const Op& op) {
+    int mut = (int)absmod(op.arg(1), 9);
+    uint64_t h = hash_mix((uint64_t)op.arg(2), 0xAD7);
+    auto put32 = [&](size_t off, uint32_t v) { if (off + 4 <= d.size()) memcpy(&d[off], &v, 4); };
+    switch (mut) {
+      case 0: u.ctx.count("adv_valid_messages"); break;
+      case 1: {  // length field
+        static const uint32_t lens[] = {0, 1, 7, 8, 9, 0x7fffffffu, 0xffffffffu, 65536, (uint32_t)sizeof(VBIPROXY_MSG), (uint32_t)sizeof(VBIPROXY_MSG) + 1, (uint32_t)sizeof(VBIPROXY_MSG) + 8, 0};
+        int k = (int)absmod(op.arg(2), 14);
+        uint32_t v = k < 11 ? lens[k] : (uint32_t)d.size() + (k == 11 ? 1 : k == 12 ? (uint32_t)-1 : 4);
+        put32(0, be32(v)); u.ctx.count("fault_adv_bad_length"); break; }
+      case 2: { static const uint32_t ty[] = {1, 2, 4, 6, 10, 11, 14, 18, 19, 20, 255, 0xffffffffu};
+        put32(4, be32(ty[absmod(op.arg(2), 12)])); u.ctx.count("fault_adv_bad_type"); break; }
+      case 3: {  // out-of-range field values, by message type
+        uint32_t type = d.size() >= 8 ? be32(*(uint32_t*)&d[4]) : 0;
+        VBIPROXY_MSG* m = (VBIPROXY_MSG*)&d[0];
+        static const int8_t stricts[] = {127, -128, 3, -2, 64, -64, 4, 100};
+        if (type == MSG_TYPE_CONNECT_REQ && d.size() >= sizeof(VBIPROXY_MSG_HEADER) + sizeof m->body.connect_req) {
+          switch (h % 7) {
+            case 0: m->body.connect_req.strict = stricts[(h >> 8) % 8]; break;
+            case 1: m->body.connect_req.buffer_count = (h >> 8) & 1 ? 255 : 0; break;
+            case 2: m->body.connect_req.services = (h >> 8) & 1 ? 0xffffffffu : (VBI_SLICED_VBI_625 | VBI_SLICED_TELETEXT_B); break;
+            case 3: m->body.connect_req.magics.endian_magic = (h >> 8) & 1 ? VBIPROXY_ENDIAN_MISMATCH : 0x12345678; break;
+            case 4: m->body.connect_req.magics.protocol_compat_version = 0x00000200; break;
+            case 5: memset(m->body.connect_req.client_name, 'A', VBIPROXY_CLIENT_NAME_MAX_LENGTH); break;
+            default: m->body.connect_req.scanning = (uint32_t)(h >> 8); break;
+          }
+        } else if (type == MSG_TYPE_SERVICE_REQ && d.size() >= sizeof(VBIPROXY_MSG_HEADER) + sizeof m->body.service_req) {
+          if (h & 1) m->body.service_req.strict = stricts[(h >> 8) % 8]; else m->body.service_req.services = 0xffffffffu;
+        } else if (type == MSG_TYPE_CHN_TOKEN_REQ && d.size() >= sizeof(VBIPROXY_MSG_HEADER) + sizeof m->body.chn_token_req) {
+          switch (h % 4) {
+            case 0: m->body.chn_token_req.chn_prio = (h >> 8) & 1 ? 0 : 0x7fffffff; break;
+            case 1: m->body.chn_token_req.chn_profile.min_duration = (h >> 8) & 1 ? (time_t)-5 : (time_t)1 << 40; break;
+            case 2: m->body.chn_token_req.chn_profile.is_valid = 2; break;
+            default: m->body.chn_token_req.chn_profile.sub_prio = 255; break;
+          }
+        } else if (type == MSG_TYPE_CHN_NOTIFY_REQ && d.size() >= sizeof(VBIPROXY_MSG_HEADER) + sizeof m->body.chn_notify_req) {
+          m->body.chn_notify_req.notify_flags = (VBI_PROXY_CHN_FLAGS)((h >> 8) & 1 ? 0xffffffffu : (uint32_t)(h >> 16));
+          m->body.chn_notify_req.scanning = (uint32_t)(h >> 9) & 1 ? 525 : 0xffffffffu;
+        } else if (type == MSG_TYPE_CHN_IOCTL_REQ && d.size() >= sizeof(VBIPROXY_MSG_HEADER) + sizeof m->body.chn_ioctl_req) {
+          m->body.chn_ioctl_req.arg_size = (h >> 8) & 1 ? 0xffffffffu : (uint32_t)((h >> 16) % 4096);
+        }
+        u.ctx.count("fault_adv_bad_field"); break; }
+      case 4: { int n = 1 + (int)(h % 6); for (int i = 0; i < n && !d.empty(); i++) { uint64_t g = hash_mix(h, (uint64_t)i); d[g % d.size()] ^= (char)(1 << ((g >> 20) & 7)); } u.ctx.count("fault_adv_bitflips"); break; }
+      case 5: { size_t k = d.empty() ? 0 : (size_t)(h % d.size()); d.resize(k); u.ctx.count("fault_adv_truncated"); break; }
+      case 6: { size_t n = 1 + (size_t)(h % 300); for (size_t i = 0; i < n; i++) d += (char)hash_mix(h, i); u.ctx.count("fault_adv_trailing_garbage"); break; }
+      case 7: d += d; u.ctx.count("fault_adv_duplicate"); break;
+      default: { size_t n = (size_t)(h % 600); d.clear(); for (size_t i = 0; i < n; i++) d += (char)hash_mix(h ^ 0x77, i); u.ctx.count("fault_adv_random_bytes"); break; }
+    }
+  }
+
+  void run() {
+    { char* n = vbi_proxy_msg_get_socket_name(DEVNAME); sock_path = n ? n : ""; free(n); }
+    for (const Op& op : u.plan.ops) {
+      if (op.task != idx || u.ctx.failed) continue;
+      if (op.kind == "a_connect") connect_();
+      else if (op.kind == "a_msg") { std::string d = build((int)op.arg(0), op); mutate(d, op); u.ctx.log("adversary %d: msg kind %d mutation %d (%zu bytes)", idx, (int)absmod(op.arg(0), 10), (int)absmod(op.arg(1), 9), d.size()); send_bytes(d); if (op.arg(3) & 1) drain(); }
+      else if (op.kind == "a_sleep") { int ms = (int)absmod(op.arg(0), 70001); u.sched.sleep_ns((int64_t)ms * 1000000); if (ms > 60000) u.ctx.count("adv_long_silence"); }
+      else if (op.kind == "a_drain") drain();
+      else if (op.kind == "a_close") close_();
+    }
+    // whatever happened, an adversary leaves in the end (silently, as a vanished process would)
+    if (fd >= 0) { u.sched.sleep_ns(50000000); drain(); }
+    close_();
+    u.adversaries_done++;
+  }
+};
+
+// ---- token exclusivity over the global order of events at the daemon's socket boundary ----------------------
+// grant to c  = the daemon sends TOKEN_IND, or TOKEN_CNF with token_ind, to c
+// hand-back by c = the daemon receives from c: NOTIFY with TOKEN or RELEASE, RECLAIM_CNF, a new TOKEN_REQ; or c's connection ends
+static void token_handback(Universe& u, int c, const char* why) {
+  for (size_t i = 0; i < u.holders.size(); i++) if (u.holders[i] == c) { u.holders.erase(u.holders.begin() + (long)i); u.ctx.log("token: connection %d hands back (%s)", c, why); u.ctx.count("token_handbacks"); return; }
+}
+static void token_grant(Universe& u, int c, const char* how) {
+  Universe::Conn& cn = u.conns[(size_t)c];
+  for (int h : u.holders) if (h != c) { u.ctx.fail("oracle:token-two-holders", "the daemon grants the channel token to connection %d (%s) while connection %d, which was granted it earlier, has not returned or released it, confirmed a reclaim or disconnected", c, how, h); return; }
+  if (!cn.asked) { u.ctx.fail("oracle:token-unasked", "the daemon grants the channel token to connection %d (%s) which has not asked for channel control", c, how); return; }
+  bool has = false; for (int h : u.holders) if (h == c) has = true;
+  if (!has) u.holders.push_back(c);
+  u.ctx.log("token: granted to connection %d (%s)", c, how);
+  u.ctx.count("token_grants");
+}
+static void parse_rx(Universe& u, int c) {
+  Universe::Conn& cn = u.conns[(size_t)c];
+  for (;;) {
+    if (cn.rx_broken || cn.rx.size() < 8) return;
+    uint32_t len = __builtin_bswap32(*(const uint32_t*)&cn.rx[0]), type = __builtin_bswap32(*(const uint32_t*)&cn.rx[4]);
+    if (len < 8 || len > sizeof(VBIPROXY_MSG)) { cn.rx_broken = true; return; }   // the daemon drops such a connection
+    if (cn.rx.size() < len) return;
+    const VBIPROXY_MSG* m = (const VBIPROXY_MSG*)cn.rx.data();
+    // only messages the daemon's own size check accepts have an effect
+    if (type == MSG_TYPE_CHN_TOKEN_REQ && len == 8 + sizeof m->body.chn_token_req) { token_handback(u, c, "new token request"); cn.asked = true; u.ctx.count("token_requests_seen"); }
+    else if (type == MSG_TYPE_CHN_NOTIFY_REQ && len == 8 + sizeof m->body.chn_notify_req) {
+      unsigned fl; memcpy(&fl, &m->body.chn_notify_req.notify_flags, sizeof fl);  // (an adversary may send any bit pattern: not a valid enum value)
+      if (fl & VBI_PROXY_CHN_RELEASE) { token_handback(u, c, "release"); cn.asked = false; }
+      else if (fl & VBI_PROXY_CHN_TOKEN) token_handback(u, c, "token returned");
+      if (fl & VBI_PROXY_CHN_FLUSH) { HarnessScope hs; u.flushes.push_back({u.next_seq(), (double)u.k.epoch_s + (double)u.k.now_ns() / 1e9 + 0.5}); }
+    } else if (type == MSG_TYPE_CHN_RECLAIM_CNF && len == 8 + sizeof m->body.chn_reclaim_cnf) token_handback(u, c, "reclaim confirmed");
+    else if (type == MSG_TYPE_CLOSE_REQ && len == 8) { token_handback(u, c, "close request"); cn.asked = false; }
+    cn.rx.erase(0, len);
+  }
+}
+static void parse_tx(Universe& u, int c) {
+  Universe::Conn& cn = u.conns[(size_t)c];
+  for (;;) {
+    if (cn.tx.size() < 8) return;
+    uint32_t len = __builtin_bswap32(*(const uint32_t*)&cn.tx[0]), type = __builtin_bswap32(*(const uint32_t*)&cn.tx[4]);
+    if (len < 8 || len > (1u << 20)) { u.ctx.fail("oracle:daemon-sent-garbage", "the daemon sent a message header with length %u type %u on connection %d", len, type, c); return; }
+    if (cn.tx.size() < len) return;
+    const VBIPROXY_MSG* m = (const VBIPROXY_MSG*)cn.tx.data();
+    if (type == MSG_TYPE_CHN_TOKEN_IND) token_grant(u, c, "TOKEN_IND");
+    else if (type == MSG_TYPE_CHN_TOKEN_CNF && len >= 8 + sizeof m->body.chn_token_cnf && m->body.chn_token_cnf.token_ind) token_grant(u, c, "TOKEN_CNF");
+    else if (type == MSG_TYPE_CHN_RECLAIM_REQ) u.ctx.count("token_reclaims");
+    cn.tx.erase(0, len);
+  }
+}
+static void c19_io_hook(Universe& u, const simk::IoEvent& e) {
+  if (e.pid != DAEMON_PID || u.ctx.failed) return;
+  HarnessScope hs;
+  if (!strcmp(e.op, "accept")) {
+    Universe::Conn cn; u.conns.push_back(cn);
+    u.fd_conn[(int)e.res] = (int)u.conns.size() - 1;
+    return;
+  }
+  auto it = u.fd_conn.find(e.fd);
+  if (it == u.fd_conn.end()) return;
+  int c = it->second;
+  if (!strcmp(e.op, "close")) { token_handback(u, c, "connection closed"); u.conns[(size_t)c].asked = false; u.conns[(size_t)c].closed = true; u.fd_conn.erase(it); return; }
+  if (e.res <= 0) { if (e.res == 0 && (!strcmp(e.op, "recv") || !strcmp(e.op, "read"))) { /* EOF: the daemon will close */ } return; }
+  if (!strcmp(e.op, "recv") || !strcmp(e.op, "read")) { u.conns[(size_t)c].rx.append((const char*)e.buf, (size_t)e.res); parse_rx(u, c); }
+  else if (!strcmp(e.op, "send") || !strcmp(e.op, "write")) { u.conns[(size_t)c].tx.append((const char*)e.buf, (size_t)e.res); parse_tx(u, c); }
+}
+
+struct C19 : ProxyWorld {
+  const char* name() const override { return "c19"; }
+  const char* property() const override { return "C19"; }
+  bool is_c19() const override { return true; }
+  void install_hooks(Universe& u) override {
+    Universe* up = &u;
+    u.k.io_hook = [up](const simk::IoEvent& e) { c19_io_hook(*up, e); };
+  }
+  std::vector<Adversary*> advs;
+  void spawn_extra(Universe& u, std::vector<ClientRunner*>&) override {
+    int n = (int)absmod(u.plan.knob("nadversaries", 1), 5);
+    u.adversaries = n;
+    { HarnessScope hs; advs.clear(); for (int i = 0; i < n; i++) advs.push_back(new Adversary(u, 100 + i)); }
+    for (int i = 0; i < n; i++) {
+      Adversary* a = advs[(size_t)i];
+      Universe* up = &u;
+      sim::Task* t = u.sched.spawn("adversary" + std::to_string(i), [a, up, i] {
+        up->sched.sleep_ns(1000000 + (int64_t)absmod(up->plan.knob("adv_delay" + std::to_string(i), 0), 400) * 1000000);
+        a->run();
+      }, 512 * 1024);
+      u.k.set_pid(t, 200 + i, true);
+    }
+  }
+  bool extra_done(Universe& u) override { return u.adversaries_done >= u.adversaries; }
+  void final_checks(Universe& u) override { HarnessScope hs; for (auto* a : advs) delete a; advs.clear(); (void)u; }
+  bool nontrivial(Universe& u, int frames, int busy) override { (void)busy; return frames >= 5 && (u.ctx.stats.count("adv_bytes_sent") || u.ctx.stats.count("token_requests_seen")); }
+
+  Plan generate(uint64_t seed, const std::string& tier) override {
+    Plan p; p.world = name(); p.seed = seed;
+    Rng r(seed, "plan");
+    bool thorough = tier == "thorough";
+    gen_common(p, r, thorough);
+    int mode = (int)r.below(3);  // 0: adversaries + witnesses, 1: token workload, 2: both
+    int nc = (int)r.range(1, 3) + (mode != 0 ? 1 : 0);
+    p.knobs["nclients"] = nc;
+    p.knobs["maxclients"] = (int64_t)r.range(1, 10);
+    int nadv = mode == 1 ? 0 : (int)r.range(1, thorough ? 4 : 3);
+    p.knobs["nadversaries"] = nadv;
+    for (int i = 0; i < nc; i++) {
+      p.knobs["start_delay" + std::to_string(i)] = (int64_t)r.below(200);
+      bool token_client = mode != 0 && (i > 0 || mode == 1);
+      if (!token_client) { gen_client_ops(p, r, i, (int)r.range(3, thorough ? 14 : 9), false); continue; }
+      // token client: connect, then a mix of reads, channel requests and notifications
+      Op c; c.task = i; c.kind = "connect"; c.a = {(int64_t)r.below(10), (int64_t)r.below(4), (int64_t)r.below(10), 0}; p.ops.push_back(c);
+      int len = (int)r.range(3, thorough ? 16 : 10);
+      for (int n = 0; n < len; n++) {
+        Op o; o.task = i;
+        unsigned x = (unsigned)r.below(100);
+        if (x < 35) { o.kind = "read"; o.a = {(int64_t)r.below(30)}; }
+        else if (x < 65) { o.kind = "token"; o.a = {r.chance(4, 5) ? 0 : (int64_t)r.below(3), (int64_t)(r.below(5) * 0x10), (int64_t)r.below(4), r.chance(9, 10)}; }
+        else if (x < 92) { static const int fl[] = {VBI_PROXY_CHN_TOKEN, VBI_PROXY_CHN_RELEASE, VBI_PROXY_CHN_TOKEN, VBI_PROXY_CHN_TOKEN | VBI_PROXY_CHN_FLUSH, VBI_PROXY_CHN_FLUSH, VBI_PROXY_CHN_FAIL, VBI_PROXY_CHN_NORM, VBI_PROXY_CHN_RELEASE | VBI_PROXY_CHN_TOKEN};
+          o.kind = "notify"; o.a = {fl[r.below(8)]}; }
+        else if (x < 96) { o.kind = "stall"; o.a = {(int64_t)r.below(2500)}; }
+        else { o.kind = "close"; p.ops.push_back(o); Op c2 = c; p.ops.push_back(c2); continue; }
+        p.ops.push_back(o);
+      }
+    }
+    for (int i = 0; i < nadv; i++) {
+      p.knobs["adv_delay" + std::to_string(i)] = (int64_t)r.below(400);
+      int len = (int)r.range(2, thorough ? 16 : 10);
+      bool connected = false, handshaken = false;
+      for (int n = 0; n < len; n++) {
+        Op o; o.task = 100 + i;
+        if (!connected) { o.kind = "a_connect"; connected = true; handshaken = false; p.ops.push_back(o); continue; }
+        unsigned x = (unsigned)r.below(100);
+        if (x < 70) {
+          o.kind = "a_msg";
+          int kind = !handshaken && r.chance(3, 4) ? 0 : (int)r.below(10);
+          int mut = r.chance(2, 5) ? 0 : (int)r.range(1, 8);
+          if (kind == 0 && mut == 0) handshaken = true;
+          o.a = {kind, mut, (int64_t)(r.next() >> 40), (int64_t)r.below(2), (int64_t)r.below(64), (int64_t)r.below(1 << 16), (int64_t)r.below(64), (int64_t)r.below(64), (int64_t)r.below(8)};
+        } else if (x < 82) { o.kind = "a_sleep"; o.a = {r.chance(1, 12) ? (int64_t)r.range(60001, 70000) : (int64_t)r.below(1500)}; }
+        else if (x < 90) { o.kind = "a_drain"; }
+        else { o.kind = "a_close"; connected = false; }
+        p.ops.push_back(o);
+      }
+    }
+    return p;
+  }
+};
+ZSIM_REGISTER_WORLD(C19)
 
 }  // namespace
